@@ -94,7 +94,8 @@ ConsStmts ==
       R3 == {<<cell(k), cell(a), cell(b)>> : k \in KV, a \in V3, b \in V3}
       od == {<<SetItem(3, ECol(7, "none"))>>, <<SetItem(2, ECol(6, "none"))>>}
   IN InsFor("t", <<1>>, R1, od) \cup InsFor("t", <<1, 2>>, R2, od) \cup InsFor("t", <<1, 2, 3>>, R3, od)
-     \cup {SInsert("t", m, <<1, 2, 3>>, <<r, q>>, <<>>) : m \in {"plain", "ignore"}, r \in {x \in R3 : x[1].e.v = I(0)}, q \in {x \in R3 : x[1].e.v = I(1)}}
+     \cup {SInsert("t", m, <<1, 2, 3>>, <<r, q>>, <<>>) : m \in Modes2 \cap {"plain", "ignore"},
+                r \in {x \in R3 : x[1].e.v = I(0) /\ x[3].e.v = NULL}, q \in {x \in R3 : x[1].e.v = I(1)}}
      \cup {SUpdate("t", ig, <<SetItem(2, ELit(v))>>, w, <<>>, -1) : ig \in BOOLEAN, v \in V3, w \in {ETrue} \cup {Eq(cc1, k) : k \in KV}}
      \cup {SUpdate("t", ig, <<SetItem(3, ELit(v))>>, ETrue, <<>>, -1) : ig \in BOOLEAN, v \in V3}
      \cup {SUpdate("t", FALSE, <<SetItem(2, Plus1(cc2))>>, ETrue, <<>>, -1)}
